@@ -721,6 +721,19 @@ impl ConfigState {
         if let Some(ref v) = patch.sozu_id_header {
             listener.sozu_id_header = Some(v.to_owned());
         }
+        if let Some(v) = patch.elide_x_real_ip {
+            listener.elide_x_real_ip = Some(v);
+        }
+        if let Some(v) = patch.send_x_real_ip {
+            listener.send_x_real_ip = Some(v);
+        }
+        // Same merge as the worker-side `update_config`: non-empty templates
+        // replace or add their status entry, nothing is removed.
+        for (code, body) in &patch.answers {
+            if !body.is_empty() {
+                listener.answers.insert(code.clone(), body.clone());
+            }
+        }
         Ok(())
     }
 
@@ -742,6 +755,15 @@ impl ConfigState {
         }
         if let Some(ref v) = patch.sozu_id_header {
             validate_sozu_id_header(v)?;
+        }
+        if let Some(ref hsts) = patch.hsts {
+            // same rule as the worker-side `update_config`
+            if hsts.enabled.is_none() {
+                return Err(StateError::InvalidValue {
+                    field: "hsts.enabled",
+                    reason: "an HSTS patch must state `enabled`",
+                });
+            }
         }
 
         let address: SocketAddr = patch.address.into();
@@ -847,6 +869,22 @@ impl ConfigState {
         }
         if let Some(ref v) = patch.sozu_id_header {
             listener.sozu_id_header = Some(v.to_owned());
+        }
+        if let Some(v) = patch.elide_x_real_ip {
+            listener.elide_x_real_ip = Some(v);
+        }
+        if let Some(v) = patch.send_x_real_ip {
+            listener.send_x_real_ip = Some(v);
+        }
+        // Same merge as the worker-side `update_config`: non-empty templates
+        // replace or add their status entry, nothing is removed.
+        for (code, body) in &patch.answers {
+            if !body.is_empty() {
+                listener.answers.insert(code.clone(), body.clone());
+            }
+        }
+        if let Some(new_hsts) = patch.hsts {
+            listener.hsts = Some(new_hsts);
         }
         Ok(())
     }
